@@ -106,6 +106,7 @@ package machos
 //@   ghost pagesOK bool = false
 //@   on call readSigBlob(_, _) ret (b, e): blobG = b
 //@   before call csblob.Verify(b, p): assert @the_signature_blob_of_this_image_is_what_gets_verified sameslice(b, blobG)
+//@   before call csblob.Verify(_, p): assert @bundle_files_given_by_the_caller_are_compared_with_the_special_slots sameslice(p.Resources, resources) && (old(infoPlist) != nil ==> sameslice(p.InfoPlist, old(infoPlist)))
 //@   on call csblob.Verify(_, _) ret (v, e): sigOK = (e == nil); vb = v
 //@   before call (*csblob.SigBlob).VerifyPages(sb, _): assert @page_hashes_belong_to_the_verified_signature sigOK && sb == vb.Blob
 //@   on call (*csblob.SigBlob).VerifyPages(_, _) ret (e): pagesOK = (e == nil)
